@@ -456,20 +456,110 @@ theorem C19_replay_events (c : Cfg) (s : State) (es : List Ev) (hf : FInv s) (ha
     obtain ⟨a2, b2⟩ := ih (step c s e).1 b ha.2
     exact ⟨by simp only [ntfsOf, run]; rw [replay_append, a, a2], b2⟩
 
-/-- The full statement: for every history, every moment `m` (state `s`) and height `h > 0` at or
-below the filter tip, replaying `backlog_m(h)` and then everything emitted afterwards on the chain
-committed at `m` cut at `h` gives the chain committed now.  PROVED so far: the events part for
-every event list (`C19_replay_events`: it is this statement with the subscriber already holding
-the committed chain, i.e. after the backlog has been applied), every `headers` message on every
-path (`C19_replay_headers`), every aligned filter-header write (`C19_replay_cfwrite`) and the
-shape of the backlog (`C19_backlog_shape`).  MISSING: the two-line glue
-`replay (log.take (h+1)) (backlog s h).bl = committedS s` (needs `backlogRange` = the stored
-blocks `h+1..fst`, as `conn_replay` does for `connRange`).  Evaluated on the real system on
-every run by the subscriber replay in the driver. -/
-def C19_replay : Prop :=
-  ∀ (c : Cfg) (s : State) (es' : List Ev) (h : Nat), FInv s → alignedRun c s es' → 0 < h → h ≤ s.fst →
-    replay (replay ((committedS s).take (h + 1)) ((backlog s h).bl.map (fun n => .conn n.id n.height 0)))
-      (ntfsOf c s es') = committedS (run c s es')
+/-- the filter-tip invariant holds in every reachable state (no alignment needed for that) -/
+theorem finv_step (c : Cfg) (s : State) (e : Ev) (hf : FInv s) : FInv (step c s e).1 := by
+  cases e with
+  | cfWrite stop n okk =>
+    cases okk with
+    | false => simp only [step, cfWrite]; exact hf
+    | true =>
+      cases hi : idxOf s.log stop with
+      | none => simp only [step, cfWrite, hi]; exact hf
+      | some endH =>
+        by_cases hc : (decide (n = 0) || decide (n - 1 > endH)) = true
+        · simp only [step, cfWrite, hi, hc]; exact hf
+        · have hn : n ≠ 0 := by intro e; simp [e] at hc
+          have hle : n - 1 ≤ endH := by
+            rcases Nat.lt_or_ge endH (n - 1) with h | h
+            · exfalso; apply hc; simp; right; exact h
+            · exact h
+          obtain ⟨a, b, d, _⟩ := C19_connected s stop n endH hi hn hle
+          exact ⟨by show (cfWrite s stop n true).1.fst < (cfWrite s stop n true).1.log.length
+                    rw [a, d]; exact (idxOf_some hi).1,
+                 by show (cfWrite s stop n true).1.ftip.height = (cfWrite s stop n true).1.fst
+                    rw [a, b]⟩
+  | newPeer p => exact (step_trace c s (.newPeer p) hf trivial).2
+  | donePeer p => exact (step_trace c s (.donePeer p) hf trivial).2
+  | peerHeight p k => exact (step_trace c s (.peerHeight p k) hf trivial).2
+  | inv p id => exact (step_trace c s (.inv p id) hf trivial).2
+  | headers p hs => exact (step_trace c s (.headers p hs) hf trivial).2
+  | backlog k => exact (step_trace c s (.backlog k) hf trivial).2
+
+theorem finv_init (c : Cfg) (peers : List Peer) : FInv (init c peers) := ⟨by simp [init], rfl⟩
+
+theorem finv_run (c : Cfg) (s : State) (es : List Ev) (hf : FInv s) : FInv (run c s es) := by
+  induction es generalizing s with
+  | nil => exact hf
+  | cons e es ih => exact ih _ (finv_step c s e hf)
+
+/-- `FilterTipConsistent` in every reachable state: the filter store's tip is inside the block
+chain and the in-memory filter tip equals the store's (F10 repaired). -/
+theorem C19_filter_tip_consistent (c : Cfg) (peers : List Peer) (es : List Ev) :
+    FInv (run c (init c peers) es) := finv_run c _ es (finv_init c peers)
+
+/-- the backlog read from the store, replayed on the chain cut at `i`, extends it by exactly those blocks -/
+theorem backlog_replay (log : List Nat) : ∀ (n i : Nat), i + n ≤ log.length →
+    ∃ bl, backlogRange log i n = some bl ∧
+      replay (log.take i) (bl.map (fun nd => Ntfn.conn nd.id nd.height 0)) = log.take (i + n) := by
+  intro n
+  induction n with
+  | zero => intro i _; exact ⟨[], rfl, by simp [replay]⟩
+  | succ k ih =>
+    intro i hle
+    have hlt : i < log.length := by omega
+    obtain ⟨bl, hb, hr⟩ := ih (i + 1) (by omega)
+    refine ⟨⟨log[i], i⟩ :: bl, ?_, ?_⟩
+    · simp only [backlogRange, List.getElem?_eq_getElem hlt, hb, Option.map_some]
+    · simp only [List.map_cons, replay, List.foldl_cons]
+      have h1 : replay1 (log.take i) (.conn log[i] i 0) = log.take (i + 1) := by
+        simp only [replay1, List.length_take]
+        have : ¬ (i < min i log.length) := by omega
+        simp only [this, ↓reduceIte]
+        rw [List.take_succ, List.getElem?_eq_getElem hlt]; simp
+      rw [h1]
+      simp only [replay] at hr
+      rw [hr]; congr 1; omega
+
+/-- **The backlog half**: in a state with a consistent filter tip, the backlog offered for a height
+`0 < h ≤ filter tip`, replayed on the committed chain cut at `h`, gives the committed chain. -/
+theorem C19_backlog_replay (s : State) (h : Nat) (hf : FInv s) (h0 : 0 < h) (hle : h ≤ s.fst) :
+    (backlog s h).res = .ok ∧
+    replay ((committedS s).take (h + 1)) ((backlog s h).bl.map (fun nd => Ntfn.conn nd.id nd.height 0))
+      = committedS s := by
+  have hcut : (committedS s).take (h + 1) = s.log.take (h + 1) := by
+    simp only [committedS, committedOf, List.take_take]; congr 1; omega
+  have hF := hf.F
+  have hG := hf.G
+  rw [hcut]
+  simp only [backlog, hG]
+  have h0' : ¬ h = 0 := by omega
+  simp only [h0', ↓reduceIte]
+  by_cases he : s.fst = h
+  · simp only [he, ↓reduceIte]
+    exact ⟨trivial, by simp [replay, committedS, committedOf, he]⟩
+  · have hgt : ¬ h > s.fst := by omega
+    simp only [he, hgt, ↓reduceIte]
+    obtain ⟨bl, hb, hr⟩ := backlog_replay s.log (s.fst - h) (h + 1) (by omega)
+    rw [hb]
+    refine ⟨rfl, ?_⟩
+    simp only [committedS, committedOf]
+    rw [hr]; congr 1; omega
+
+/-- **C19 replay, every history, every moment, every height**: for every event list `es` leading
+to a moment `m`, every height `0 < h ≤` the filter tip at `m` and every event list `es'` after it
+(filter-header writes starting right above the filter tip, as the writer does): replaying the
+backlog offered at `m` for `h` and then every notification emitted afterwards, on the chain that
+was committed at `m` cut at `h`, gives exactly the chain committed now.  A connected event for a
+block already held is skipped; a disconnected event pops only if it names the current tip. -/
+theorem C19_replay (c : Cfg) (peers : List Peer) (es es' : List Ev) (h : Nat) :
+    let s := run c (init c peers) es
+    alignedRun c s es' → 0 < h → h ≤ s.fst →
+    replay (replay ((committedS s).take (h + 1)) ((backlog s h).bl.map (fun nd => Ntfn.conn nd.id nd.height 0)))
+      (ntfsOf c s es') = committedS (run c s es') := by
+  intro s hal h0 hle
+  have hf : FInv s := C19_filter_tip_consistent c peers es
+  rw [(C19_backlog_replay s h hf h0 hle).2]
+  exact (C19_replay_events c s es' hf hal).1
 
 /-! Non-vacuity -/
 example : (cfWrite { log := [0, 1, 2, 3] } 2 2 true).2.ntf = [.conn 1 1 2, .conn 2 2 2] := by decide
